@@ -131,4 +131,18 @@ theorem accepted_while_logic_ok (p : Check.Prog) (h : validate p = some []) (t :
     LogicOk (mkEnv p) t.variables e :=
   Classical.byContradiction fun hb => logic_operand_in_while_guard p [] h t e body line hn hb rfl
 
+/-- more generally: in the guards of an accepted program every operator is applied, at every depth, to operands of
+    its kind (arithmetic to numbers, ordering to two numbers or two strings, And / Or to booleans) - so the Python
+    operators the scheduler applies get operands they are defined on, as far as the checker's notions of number /
+    string / boolean go (K7a: a boolean counts as a number, harmless in Python) -/
+theorem accepted_condition_operands_ok (p : Check.Prog) (h : validate p = some []) (t : Check.Task)
+    (e : Expr) (ps fs : List Stmt) (line : Nat) (hn : Nested p t (.cond e ps fs line)) :
+    OperandsOk (mkEnv p) t.variables e :=
+  Classical.byContradiction fun hb => ill_typed_operand_in_condition p [] h t e ps fs line hn hb rfl
+
+theorem accepted_while_operands_ok (p : Check.Prog) (h : validate p = some []) (t : Check.Task)
+    (e : Expr) (body : List Stmt) (line : Nat) (hn : Nested p t (.wloop e body line)) :
+    OperandsOk (mkEnv p) t.variables e :=
+  Classical.byContradiction fun hb => ill_typed_operand_in_while_guard p [] h t e body line hn hb rfl
+
 end Pfdl.Props.C09
